@@ -204,10 +204,16 @@ package dht
 //@   callsite (dht.tokenServer).CreateToken forwards: $me == s.tokenServer && $addr == addr
 //@   ensures the-token-the-token-server-issued: result == recorded("issuedtoken")
 
+// reply / sendError: each starts exactly one goroutine (verified separately as reply$1 / sendError$1) for the asker,
+// transaction ID and payload it was given, and does nothing else
 //@ func (*dht.Server).reply
-//@   trusted
+//@   requires can-send: s != nil && s.socket != nil && s.config.SendLimiter != nil && addr != nil
+//@   callsite go:(*dht.Server).reply$1 for-what-it-was-given: $s == s && $addr == addr && $t == t && $r == r
+//@   ensures one-sender: count("go:(*dht.Server).reply$1") == 1
 //@ func (*dht.Server).sendError
-//@   trusted
+//@   requires can-send: s != nil && s.socket != nil && s.config.SendLimiter != nil && addr != nil
+//@   callsite go:(*dht.Server).sendError$1 for-what-it-was-given: $s == s && $addr == addr && $t == t && $e == e
+//@   ensures one-sender: count("go:(*dht.Server).sendError$1") == 1
 
 //@ spec def needsargs(q string) bool = q == "find_node" || q == "get_peers" || q == "announce_peer" || q == "put" || q == "get"
 //@ spec def known(q string) bool = q == "ping" || needsargs(q)
@@ -217,6 +223,7 @@ package dht
 //@ func (*dht.Server).handleQuery
 //@   requires nonnil: s != nil && source != nil && iplen(source) && s.store != nil && s.store.s != nil
 //@   requires token-window-configured: s.tokenServer.interval > 0 && s.tokenServer.maxIntervalDelta == 2
+//@   requires can-send: s.socket != nil && s.config.SendLimiter != nil
 //@   requires unlocked-wrapper: !held(s.store.mu)
 //@   requires table-root-is-own-id: s.table.rootID.bits == s.id.bits
 //@   requires globals: krpcErrMissingArguments.Code == 203 && krpc.ErrorMethodUnknown.Code == 204
@@ -312,7 +319,7 @@ package dht
 //@   option noalloc
 //@   ensures result == self.String()
 
-//@ spec def handler(s *Server) bool = s != nil && s.tokenServer.interval > 0 && s.tokenServer.maxIntervalDelta == 2 && s.store != nil && s.store.s != nil && !held(s.store.mu) && s.table.rootID.bits == s.id.bits && krpcErrMissingArguments.Code == 203 && krpc.ErrorMethodUnknown.Code == 204 && bep44.ErrValueFieldTooBig.Code == 205 && bep44.ErrInvalidSignature.Code == 206 && bep44.ErrSaltFieldTooBig.Code == 207 && bep44.ErrCasHashMismatched.Code == 301 && bep44.ErrSequenceNumberLessThanCurrent.Code == 302 && bep44.Empty32ByteArray == 0 && bep44.ErrItemNotFound != nil
+//@ spec def handler(s *Server) bool = s != nil && s.socket != nil && s.config.SendLimiter != nil && s.tokenServer.interval > 0 && s.tokenServer.maxIntervalDelta == 2 && s.store != nil && s.store.s != nil && !held(s.store.mu) && s.table.rootID.bits == s.id.bits && krpcErrMissingArguments.Code == 203 && krpc.ErrorMethodUnknown.Code == 204 && bep44.ErrValueFieldTooBig.Code == 205 && bep44.ErrInvalidSignature.Code == 206 && bep44.ErrSaltFieldTooBig.Code == 207 && bep44.ErrCasHashMismatched.Code == 301 && bep44.ErrSequenceNumberLessThanCurrent.Code == 302 && bep44.Empty32ByteArray == 0 && bep44.ErrItemNotFound != nil
 
 //@ func (*dht.transaction).handleResponse
 //@   trusted
@@ -388,6 +395,7 @@ package dht
 // (lockinv: no pending transaction of this server carries the encoding of a counter value that has not been issued yet --
 // so the ID issued next is not the T of any registered key; the issuer's counter only grows)
 //@ func (*dht.Server).Query
+//@   option records queryresult
 //@   requires nonnil: s != nil && addr != nil && ctx != nil
 //@   requires unlocked: !held(s.mu)
 //@   requires issuer-usable: issuerok()
@@ -618,9 +626,14 @@ package dht
 //@   trusted
 //@   modifies types bucket, table
 //@   ensures only-removals: forall m *node :: (m in b.nodes) ==> old(m in b.nodes)
+// getNode: the entry with this identity in the bucket its ID belongs to (nil for the own ID)
 //@ func (*dht.table).getNode
-//@   trusted
 //@   option records found
+//@   requires nonnil: tbl != nil && addr != nil
+//@   requires entries-have-addresses: id.bits != tbl.rootID.bits ==> (forall m *node :: (m in tbl.buckets[bidx(tbl, id)].nodes) ==> m != nil && m.Addr != nil)
+//@   ensures never-the-own-id: id.bits == tbl.rootID.bits ==> result == nil
+//@   ensures found-is-that-contact-in-its-bucket: result != nil ==> (result in tbl.buckets[bidx(tbl, id)].nodes) && result.Id == id && result.Addr.String() == addr.String()
+//@   ensures absent-means-not-in-its-bucket: result == nil && id.bits != tbl.rootID.bits ==> (forall m *node :: (m in tbl.buckets[bidx(tbl, id)].nodes) ==> !(m.Id == id && m.Addr.String() == addr.String()))
 //@ func (*dht.table).bucketForID
 //@   requires nonnil: tbl != nil
 //@   requires not-root: id.bits != tbl.rootID.bits
